@@ -59,7 +59,7 @@ CHECKS = {
    text="(a) every C01 input is backed up three times (the third under other settings): no write issued for a block already stored within a run, no block write and identical addresses for the unchanged tree, every file counted unmodified; (b) the op log of every backup event of the history graph: no block path written while present, and an unchanged tree writes nothing and records the newest complete version's addresses; (c) every crash point of the standard scenarios plus two unchanged-tree scenarios is followed by a resumed backup whose log and entries are judged.",
    note="'Unchanged' means equal to the newest complete version with only interrupted attempts at the same tree in between."),
  'C15': dict(cat='model_checking', tech=E1I, eng='E1-inputs', ref='DESIGN.md 4/C15',
-   text="Every tree shape over a names menu, and three wide trees under seven hunk sizes, x every set of at most two patterns from a 13-pattern menu: entries stored by backup-with-exclusions, listed with exclusions and restored with exclusions are compared with each other and with the ancestor rule; every pattern set is also given through a pattern file and must decide every probe path the same way. A sub-sweep drives the same operations through the tool's own command-line front end (src/bin/conserve.rs compiled next to the harness).",
+   text="Every tree shape over a names menu, and three wide trees under seven hunk sizes, x every set of at most two patterns from a 15-pattern menu (quick: generated shapes meet single patterns, pairs meet the wide trees): entries stored by backup-with-exclusions, listed with exclusions and restored with exclusions are compared with each other and with the ancestor rule; every pattern set is also given through a pattern file and must decide every probe path the same way. A sub-sweep drives the same operations through the tool's own command-line front end (src/bin/conserve.rs compiled next to the harness).",
    note="Oracle uses the same glob primitive (globset, literal_separator); root entry left out; trees <= 3 (quick) / 4 (thorough) nodes."),
  'C16': dict(cat='model_checking', tech=E1I + "; plus crash-point enumeration for the stitched case", eng='E1-inputs', ref='DESIGN.md 4/C16',
    text="Every tuple of at most three symlink targets (upward, absolute, '.', '..', siblings, dangling) x subtree x exclude x destination state is restored inside a sandbox whose sentinels (content, mode, owner, mtime) must be unchanged; a pre-populated destination must be refused untouched; and for every target and two names a version in which a directory (with nested entries) and two files became that symlink is interrupted at every crash point and restored, restored again over the result, and restored with each single index-hunk read failing. A sub-sweep drives the same operations through the tool's own command-line front end (src/bin/conserve.rs compiled next to the harness).",
